@@ -1045,3 +1045,67 @@ def _cli_move_out(texts):
         raise LookupError("main dispatch tail")
     texts["main"] = src.replace(old, new)
     return texts
+
+
+# ============================================================ R12 unit scale ==
+B("c01-seconds-fallback-wrong-radix", ["C01"], ["R12"],
+  ("data", "                    new._minute_of_hour += (\n                        duration._seconds / float(CALENDAR.SECONDS_IN_MINUTE))",
+   "                    new._minute_of_hour += (\n                        duration._seconds / float(CALENDAR.SECONDS_IN_HOUR))"),
+  canary=True)
+B("c01-minutes-into-hours-raw", ["C01"], ["R12"],
+  ("data", "            new._hour_of_day += duration._hours\n", "            new._hour_of_day += duration._minutes\n"))
+B("c01-tick-over-hour-remainder-radix", ["C01"], ["R12"],
+  ("data", "            self._minute_of_hour += (\n                hours_remainder * CALENDAR.MINUTES_IN_HOUR)",
+   "            self._minute_of_hour += (\n                hours_remainder * CALENDAR.HOURS_IN_DAY)"))
+B("c01-tick-over-divmod-radix", ["C01"], ["R12"],
+  ("data", "            num_days, hours = divmod(self._hour_of_day, CALENDAR.HOURS_IN_DAY)",
+   "            num_days, hours = divmod(self._hour_of_day, CALENDAR.MINUTES_IN_HOUR)"))
+B("c01-week-form-to-days-radix", ["C01", "C11"], ["R12"],
+  ("data", "            new._days = new._weeks * CALENDAR.DAYS_IN_WEEK", "            new._days = new._weeks * CALENDAR.HOURS_IN_DAY"))
+B("c04-borrow-wrong-radix", ["C04"], ["R12"],
+  ("data", "                diff_hour += CALENDAR.HOURS_IN_DAY", "                diff_hour += CALENDAR.MINUTES_IN_HOUR"),
+  canary=True)
+B("c04-borrow-wrong-component", ["C04"], ["R12"],
+  ("data", "            if diff_minute < 0:\n                diff_hour -= 1", "            if diff_minute < 0:\n                diff_day -= 1"))
+B("c04-result-with-months", ["C04"], ["R12"],
+  ("data", "            return Duration(\n                days=diff_day, hours=diff_hour, minutes=diff_minute,\n                seconds=diff_second)",
+   "            return Duration(\n                months=0, days=diff_day, hours=diff_hour, minutes=diff_minute,\n                seconds=diff_second)"))
+B("c04-result-swapped-keywords", ["C04"], ["R12"],
+  ("data", "days=diff_day, hours=diff_hour, minutes=diff_minute,", "days=diff_day, hours=diff_minute, minutes=diff_hour,"))
+B("c11-nonnominal-wrong-factor", ["C11", "C01", "C04"], ["R12"],
+  ("data", "                self._hours * CALENDAR.SECONDS_IN_HOUR +\n                self._minutes * CALENDAR.SECONDS_IN_MINUTE + self._seconds)",
+   "                self._hours * CALENDAR.SECONDS_IN_MINUTE +\n                self._minutes * CALENDAR.SECONDS_IN_MINUTE + self._seconds)"),
+  canary=True)
+B("c11-days-and-seconds-wrong-divisor", ["C11"], ["R12"],
+  ("data", "        diff_days, new_seconds = divmod(new_seconds, CALENDAR.SECONDS_IN_DAY)",
+   "        diff_days, new_seconds = divmod(new_seconds, CALENDAR.SECONDS_IN_HOUR)"))
+B("c11-standardize-wrong-radix", ["C11"], ["R12"],
+  ("data", "                num_hours, self._minutes = divmod(\n                    self._minutes, CALENDAR.MINUTES_IN_HOUR)",
+   "                num_hours, self._minutes = divmod(\n                    self._minutes, CALENDAR.HOURS_IN_DAY)"))
+B("c02-second-of-day-wrong-factor", ["C02"], ["R12"],
+  ("data", "        second_of_day += self._hour_of_day * CALENDAR.SECONDS_IN_HOUR",
+   "        second_of_day += self._hour_of_day * CALENDAR.SECONDS_IN_MINUTE"))
+B("c18-hours-divisor-60", ["C18"], ["R12"],
+  ("timezone", "    utc_offset_hours = sign * ((sign * utc_offset_seconds) // 3600)",
+   "    utc_offset_hours = sign * ((sign * utc_offset_seconds) // 60)"),
+  canary=True)
+B("c18-returned-pair-swapped", ["C18"], ["R12"],
+  ("timezone", "    return utc_offset_hours, utc_offset_minutes", "    return utc_offset_minutes, utc_offset_hours"))
+B("c18-template-swapped", ["C18"], ["R12"],
+  ("timezone", "        sign=sign, hh=abs(utc_offset_hours), mm=abs(utc_offset_minutes)",
+   "        sign=sign, hh=abs(utc_offset_minutes), mm=abs(utc_offset_hours)"))
+B("c06-local-zone-pair-swapped", ["C06", "C18"], ["R12", "R14"],
+  ("data", "            TimeZone(hours=local_hours, minutes=local_minutes))", "            TimeZone(hours=local_minutes, minutes=local_hours))"))
+B("c18-epoch-days-times-hour", ["C18"], ["R12"],
+  ("data", "        return str(int(CALENDAR.SECONDS_IN_DAY * days + seconds))",
+   "        return str(int(CALENDAR.SECONDS_IN_HOUR * days + seconds))"))
+B("c07-assumed-zone-swapped", ["C07"], ["R12"],
+  ("parsers", "                time_zone_info[\"time_zone_hour\"] = utc_hour_offset\n                time_zone_info[\"time_zone_minute\"] = utc_minute_offset\n                return time_zone_info\n            else:",
+   "                time_zone_info[\"time_zone_hour\"] = utc_minute_offset\n                time_zone_info[\"time_zone_minute\"] = utc_hour_offset\n                return time_zone_info\n            else:"))
+B("c10-fallback-minute-into-hours", ["C10"], ["R12", "R27"],
+  ("parsers", "            result_map[\"hours\"] = timepoint._hour_of_day", "            result_map[\"hours\"] = timepoint._minute_of_hour"))
+K("c01k-swap-equal-radices",
+  ("data", "                        duration._seconds / float(CALENDAR.SECONDS_IN_MINUTE))",
+   "                        duration._seconds / float(CALENDAR.MINUTES_IN_HOUR))"))
+K("c04k-borrow-equal-radix",
+  ("data", "                diff_second += CALENDAR.SECONDS_IN_MINUTE", "                diff_second += CALENDAR.MINUTES_IN_HOUR"))
